@@ -22,11 +22,13 @@ MANIFEST = dict(
          "length bound), about an LTS model of EventDebouncer.run/handle_event/stop with the repaired wait loop (exactly once "
          "in arrival order, non-empty batches, nothing after stop, quiet-interval rule, no deadlock, exit within 5 own steps "
          "after stop, delivery progress; the pinned loop is refuted: F5) and about a model of ShellCommandTrick's "
-         "wait/drop options (no overlapping commands). For AutoRestartTrick an LTS model of the stop/start/restart protocol "
-         "over a process table carries machine-checked REFUTATIONS of the pinned protocol (two children alive, orphan "
-         "survives stop(), child alive when stop() returns: F12); the full statements for the repaired protocol "
-         "(_restart_process under the lock) are stated as Definitions and NOT yet proved - they are checked by the oracle on "
-         "every scheduler run and by a sequential outcome correspondence with the extracted model only. The models are tied "
+         "wait/drop options (no overlapping commands); and about an LTS model of AutoRestartTrick's stop/start/restart "
+         "protocol over a process table with an unbounded family of ProcessWatcher threads: for the repaired protocol "
+         "(_restart_process under the re-entrant lock, fix F15) at most one child alive in every reachable state and after "
+         "every Popen, after stop() returned no child alive / no later Popen / every watcher finished or told to stop, "
+         "children started = 1 + admitted restart calls - the at most one pending call (C18_restart_one_child, "
+         "_after_stop, _count; proof by an inductive mutual-exclusion invariant); the pinned protocol is refuted by "
+         "witness runs (two children alive, orphan survives stop(), child alive when stop() returns). The models are tied "
          "to /repo by replaying, in the extracted debouncer model, the scheduler trace of every real run lock-step, and by "
          "outcome-level comparisons for the restart (non-overlapping operation sequences) and shell (paced runs) models; "
          "the property text is evaluated as an oracle on the public history / process-table log of every run.",
@@ -34,7 +36,9 @@ MANIFEST = dict(
          "Event/Thread; no spurious wake-ups, as in CPython); the simulated process table (a child dies when "
          "signalled according to a scripted behaviour, SIGKILL always kills). Correspondence and oracle runs are sampled "
          "(quick: seeded random schedules; thorough: additionally all schedules with <= 2 pre-emptions of small programs). "
-         "AutoRestartTrick part: proof level applies to the refutations only. Assumes start() has returned before events/"
+         "AutoRestartTrick model vs code: outcome-level on sequential scenarios + oracle on all schedules (no lock-step "
+         "replay of interleaved restart runs). Not claimed (false, known finding): that every superseded watcher thread "
+         "has finished when stop() returns. Assumes start() has returned before events/"
          "stop() are issued, one stop() caller, one dispatching thread for ShellCommandTrick.",
     technique="Coq proof (LTS invariants) + lock-step trace replay in the extracted model + deterministic-scheduler "
               "exploration of the real code with a property oracle",
@@ -62,25 +66,9 @@ def units(t: float) -> int:
     return int(round((t - T0) / UNIT))
 
 
-_SCHED = None
-
-
 def new_sched(chooser, max_steps=4000):
-    """ds.Scheduler whose me() ignores finished threads (OS thread idents are reused after a thread exits)."""
-    global _SCHED
     from harness import detsched as ds
-    if _SCHED is None:
-        import threading as _rt
-
-        class Sched(ds.Scheduler):
-            def me(self):
-                ident = _rt.get_ident()
-                for t in self.threads:
-                    if t.real is not None and not t.done and t.real.ident == ident:
-                        return t
-                return None
-        _SCHED = Sched
-    return _SCHED(chooser, max_steps=max_steps)
+    return ds.Scheduler(chooser, max_steps=max_steps)
 
 
 # ====================================================================== part 1: debouncer
